@@ -59,7 +59,9 @@ class ExprMixin:
         if k == 'none': return z3.BoolVal(False)
         if k == 'sized': return v.z > 0
         if k == 'any': return z3.Function('any_truthy', AnyS, z3.BoolSort())(v.z)
-        if k == 'list': return st.llen(v.z) > 0
+        if k == 'list':
+            st.assume(st.llen(v.z) >= 0)        # a length is never negative, in any heap
+            return st.llen(v.z) > 0
         if k == 'text': return self.text_len(v.z) > 0
         if k == 'opt':
             inner = self.truthy(opt_val(v), st)
@@ -160,8 +162,11 @@ class ExprMixin:
         arr = fresh('cat', z3.ArraySort(I, sort_of(elem)))
         i = z3.Int('i!cat')
         st.assume(z3.ForAll([i], z3.Implies(z3.And(0 <= i, i < a.n), arr[i] == a.arr[i]), patterns=[arr[i]]),
-                  z3.ForAll([i], z3.Implies(z3.And(a.n <= i, i < a.n + b.n), arr[i] == b.arr[i - a.n]), patterns=[arr[i]]),
-                  z3.ForAll([i], z3.Implies(z3.And(0 <= i, i < b.n), arr[a.n + i] == b.arr[i]), patterns=[b.arr[i]]))
+                  z3.ForAll([i], z3.Implies(z3.And(a.n <= i, i < a.n + b.n), arr[i] == b.arr[i - a.n]), patterns=[arr[i]]))
+        try:
+            st.assume(z3.ForAll([i], z3.Implies(z3.And(0 <= i, i < b.n), arr[a.n + i] == b.arr[i]), patterns=[b.arr[i]]))
+        except z3.Z3Exception:
+            pass        # b is a constant array ([x] * n): the previous axiom already covers it
         res = SeqV(elem, arr, a.n + b.n)
         self.seq_lemmas(res, a, a.n, st)
         for f in self.reg.specfuns.values():
@@ -727,9 +732,14 @@ class ExprMixin:
         if gen.is_async:
             _unsup('async comprehension', gen)
         it = gen.iter
-        if isinstance(it, ast.Name) and it.id in ('INT', 'STR', 'BOOL') and it.id not in st.env:
+        if isinstance(it, ast.Name) and it.id in ('INT', 'STR', 'BOOL', 'ANYV') and it.id not in st.env:
             # quantification over a whole sort (spec only)
-            ty = {'INT': INT, 'STR': STR, 'BOOL': BOOL}[it.id]
+            ty = {'INT': INT, 'STR': STR, 'BOOL': BOOL, 'ANYV': ANY}[it.id]
+            v = fresh(gen.target.id, sort_of(ty))
+            return [v], z3.BoolVal(True), {gen.target.id: SV(ty, v)}, None
+        if isinstance(it, ast.Name) and it.id.isupper() and it.id.endswith('S') and it.id[:-1].capitalize() in self.reg.classes and it.id not in st.env:
+            # NODES: every (possibly null) reference viewed at class Node (spec only)
+            ty = TOpt(TObj(it.id[:-1].capitalize()))
             v = fresh(gen.target.id, sort_of(ty))
             return [v], z3.BoolVal(True), {gen.target.id: SV(ty, v)}, None
         if isinstance(it, ast.Call) and isinstance(it.func, ast.Name) and it.func.id == 'range':
@@ -815,7 +825,10 @@ class ExprMixin:
         if typing:
             # heap typing invariant (elements of a typed container are null or live objects of the element class): holds for every
             # index, so it is an assumption of its own rather than a guard that would have to be re-proved to use the fact
-            st.assume(z3.ForAll(vars_all, z3.simplify(z3.Implies(z3.And(*guards), z3.And(*typing)))))
+            tf = z3.ForAll(vars_all, z3.simplify(z3.Implies(z3.And(*guards), z3.And(*typing))))
+            if hasattr(self, '_typing_ids'):
+                self._typing_ids.add(tf.get_id())       # still a typing fact when it sits under an outer binder
+            st.assume(tf)
         guard = z3.And(*guards, *inner)
         # normalise select-over-store inside the body so that triggers are the terms the ground facts contain
         if universal:
